@@ -218,6 +218,7 @@ def run(repo: Repo, chk: Check):
                     map_stores.append((n, st))
     if not map_stores:
         raise AnalysisError("assign_registers: no store into 'mapping'")
+    used_sets = set()
     for n, st in map_stores:
         v = st.value
         reg = None
@@ -227,27 +228,49 @@ def run(repo: Repo, chk: Check):
         if reg is None:
             chk.bad("R17.c", f"register_assignment:assign_registers:{norm(st)}", "stored register name is not f\"r{n}\"", None, wa)
             continue
-        adds = [m.id for m in acfg.nodes if m.kind == "stmt" and isinstance(m.ast, ast.Expr) and isinstance(m.ast.value, ast.Call)
-                and norm(m.ast.value.func) == "used_registers.add" and m.ast.value.args and norm(m.ast.value.args[0]) == reg]
-        # every path from the store to the loop head / exit passes an add(reg); exception paths are errors, not results
+        # the sets that receive this register number:  <S>.add(reg)
+        add_nodes = [m for m in acfg.nodes if m.kind == "stmt" and isinstance(m.ast, ast.Expr) and isinstance(m.ast.value, ast.Call)
+                     and isinstance(m.ast.value.func, ast.Attribute) and m.ast.value.func.attr == "add" and isinstance(m.ast.value.func.value, ast.Name)
+                     and m.ast.value.args and norm(m.ast.value.args[0]) == reg]
+        by_set = {}
+        for m in add_nodes:
+            by_set.setdefault(m.ast.value.func.value.id, []).append(m.id)
+        # every path from the store to the loop head / exit passes an add(reg) of the same set; exception paths are errors, not results
         heads = [m.id for m in acfg.nodes if m.kind == "for"] + [acfg.exit.id]
-        seen, stack, ok = set(), [b for b, lab in acfg.succ[n.id] if not (isinstance(lab, tuple) and lab[0] == "exc")], True
-        while stack:
-            a = stack.pop()
-            if a in seen or a in adds:
-                continue
-            seen.add(a)
-            if a in heads:
-                ok = False
-                break
-            stack.extend(b for b, lab in acfg.succ[a] if not (isinstance(lab, tuple) and lab[0] == "exc"))
-        chk.judge("R17.c", f"register_assignment:assign_registers:{norm(st)}", ok and bool(adds),
-                  f"register {reg} is written into the map but not added to used_registers on every path", {"adds": len(adds)}, wa)
-    # registers_by_scope[scope] ⊇ used_registers ; return = union over data.symbols of registers_by_scope
+        for sname, adds in by_set.items():
+            seen, stack, ok = set(), [b for b, lab in acfg.succ[n.id] if not (isinstance(lab, tuple) and lab[0] == "exc")], True
+            while stack:
+                a = stack.pop()
+                if a in seen or a in adds:
+                    continue
+                seen.add(a)
+                if a in heads:
+                    ok = False
+                    break
+                stack.extend(b for b, lab in acfg.succ[a] if not (isinstance(lab, tuple) and lab[0] == "exc"))
+            if ok:
+                used_sets.add(sname)
+        chk.judge("R17.c", f"register_assignment:assign_registers:{norm(st)}", bool(used_sets & set(by_set)),
+                  f"register {reg} is written into the map but not added to a set of used registers on every path", {"sets": sorted(by_set)}, wa)
+    # registers_by_scope[scope] ⊇ the set of registers allocated in the scope ; return = union over data.symbols of registers_by_scope
     rbs = [st for st in ast.walk(af) if isinstance(st, ast.Assign) and any(isinstance(t, ast.Subscript) and norm(t.value) == "registers_by_scope" for t in st.targets)]
-    ok = bool(rbs) and all("used_registers" in {norm(x) for x in ast.walk(st.value) if isinstance(x, ast.Name)} for st in rbs)
+
+    def keeps(value, sname):
+        """the set sname is part of the value: S, S | X, S.union(X), set(S)"""
+        if isinstance(value, ast.Name):
+            return value.id == sname
+        if isinstance(value, ast.BinOp) and isinstance(value.op, ast.BitOr):
+            return keeps(value.left, sname) or keeps(value.right, sname)
+        if isinstance(value, ast.Call) and isinstance(value.func, ast.Attribute) and value.func.attr in ("union", "copy"):
+            return keeps(value.func.value, sname) or any(keeps(a_, sname) for a_ in value.args)
+        if isinstance(value, ast.Call) and norm(value.func) in ("set", "frozenset", "sorted", "list") and value.args:
+            return keeps(value.args[0], sname)
+        return False
+    # (a store of the bare parent set on the path that allocates nothing is fine: it is the path without map stores)
+    alloc_rbs = [st for st in rbs if any(keeps(st.value, sn) for sn in used_sets)]
+    ok = bool(alloc_rbs)
     chk.judge("R17.c", "register_assignment:assign_registers:registers_by_scope includes the scope's used set", ok,
-              f"registers_by_scope is assigned {[norm(s.value) for s in rbs]}", None, wa)
+              f"registers_by_scope is assigned {[norm(s.value) for s in rbs]}, none of which contains the set the allocated registers are added to ({sorted(used_sets)})", None, wa)
     rets = [st for st in ast.walk(af) if isinstance(st, ast.Return) and st.value is not None]
     ok = False
     detail = [norm(r.value) for r in rets]
